@@ -303,6 +303,7 @@ func (r *Runner) Deliver(m *TxMeta) bool {
 		r.AcceptedTx++
 		r.KindsOK[m.Kind]++
 		r.G.Accepted = append(r.G.Accepted, m.Raw)
+		r.G.NoteAccepted(m.Sender)
 		if !m.Multisig && len(m.Signers) == 1 {
 			if d, err := DecodeTx(m.Raw); err == nil && d.SignatureType == 1 {
 				if r.G.SigsBy == nil {
